@@ -6,7 +6,13 @@ package main
 // than the cache, hot and cold names, and a sprinkling of unsupported queries (RD=0: answered NOTIMP from the
 // query itself). Every response is checked against its own query.
 //
-// case : workers=<w> per=<queries per worker> names=<working set> notimp=<per mille> seed=<s>
+// With classes=1 a tenth of the queries ask for the same names in class CH or HS (the answer depends on the class).
+// With malformed=<per mille> a worker now and then decodes a message that the decoder rejects half way through a
+// record (RDLENGTH that does not match the encoded name of a CNAME/NS/PTR/MX/SRV/SOA record, a cut message), as a
+// listener does with what a client or an upstream sends: the error paths release what they had built, and a release
+// too many hands one buffer to two later owners — seen as another query's name or answer in a response.
+//
+// case : workers=<w> per=<queries per worker> names=<working set> notimp=<per mille> [classes=1] [malformed=<per mille>] seed=<s>
 // out  : sent=<n> answered=<n> once=<n> idok=<n> own=<n> rcodeok=<n>
 
 import (
@@ -35,6 +41,7 @@ func runHandleMix(cs string) string {
 	v.SetUpstream("u0", &scriptUp{})
 	var cnt stressCounts
 	var wg sync.WaitGroup
+	classes, malformed := m["classes"] == "1", atoi(m["malformed"])
 	for w := 0; w < workers; w++ {
 		wg.Add(1)
 		r := rand.New(rand.NewSource(seed*7919 + int64(w)))
@@ -45,12 +52,21 @@ func runHandleMix(cs string) string {
 				name := wireLabels([]byte(fmt.Sprintf("ok%d", r.Intn(names))), []byte("mix"))
 				id := uint16(r.Intn(65536))
 				typ := dnsmsg.Type([]uint16{1, 28}[r.Intn(2)])
+				class := dnsmsg.Class(1)
+				if classes && r.Intn(10) == 0 {
+					class = dnsmsg.Class([]uint16{3, 4}[r.Intn(2)])
+				}
+				if malformed > 0 && r.Intn(1000) < malformed {
+					if bad, err := dnsmsg.UnpackMsg(malformedUnit(r, name)); err == nil {
+						dnsmsg.ReleaseMsg(bad)
+					}
+				}
 				q := dnsmsg.NewMsg()
 				q.Header.ID = id
 				unsupported := r.Intn(1000) < notimp
 				q.Header.RecursionDesired = !unsupported
 				qq := dnsmsg.NewQuestion()
-				qq.Name, qq.Type, qq.Class = nameBuf(name), typ, dnsmsg.ClassINET
+				qq.Name, qq.Type, qq.Class = nameBuf(name), typ, class
 				q.Questions = append(q.Questions, qq)
 				resp, _, _, _ := v.Handle(q, remote, netip.AddrPort{})
 				cnt.mu.Lock()
@@ -61,7 +77,7 @@ func runHandleMix(cs string) string {
 					if resp.Header.ID == id && resp.Header.Response && resp.Header.RecursionAvailable && resp.Header.RecursionDesired == !unsupported {
 						cnt.idok++
 					}
-					sameQ := len(resp.Questions) == 1 && string(resp.Questions[0].Name) == string(name) && resp.Questions[0].Type == typ
+					sameQ := len(resp.Questions) == 1 && string(resp.Questions[0].Name) == string(name) && resp.Questions[0].Type == typ && resp.Questions[0].Class == class
 					if unsupported {
 						if resp.Header.RCode == dnsmsg.RCodeNotImplemented {
 							cnt.rcodeok++
@@ -74,7 +90,7 @@ func runHandleMix(cs string) string {
 							cnt.rcodeok++
 						}
 						if sameQ && len(resp.Answers) == 1 {
-							if a, ok := resp.Answers[0].(*dnsmsg.A); ok && a.A == answerFor(name, uint16(typ), 1) && string(a.Name) == string(name) {
+							if a, ok := resp.Answers[0].(*dnsmsg.A); ok && a.A == answerFor(name, uint16(typ), uint16(class)) && string(a.Name) == string(name) && a.Class == class {
 								cnt.own++
 							}
 						}
@@ -92,6 +108,36 @@ func runHandleMix(cs string) string {
 	return fmt.Sprintf("sent=%d answered=%d once=%d idok=%d own=%d rcodeok=%d", cnt.sent, cnt.answered, cnt.once, cnt.idok, cnt.own, cnt.rcodeok)
 }
 
+// malformedUnit: a response-shaped message for `name` whose single answer record breaks off inside its RDATA:
+// a name-carrying record type with an RDLENGTH one more or one less than its encoded names, or the message cut
+// somewhere inside the record.
+func malformedUnit(r *rand.Rand, name []byte) []byte {
+	b := []byte{byte(r.Intn(256)), byte(r.Intn(256)), 0x81, 0x80, 0, 1, 0, 1, 0, 0, 0, 0}
+	b = append(b, name...)
+	b = append(b, 0, 0, 1, 0, 1)
+	typ := []byte{5, 2, 12, 15, 33, 6}[r.Intn(6)]
+	target := append(wireLabels([]byte(fmt.Sprintf("t%d", r.Intn(1000))), []byte("mix")), 0)
+	var rd []byte
+	switch typ {
+	case 15:
+		rd = append([]byte{0, 10}, target...)
+	case 33:
+		rd = append([]byte{0, 1, 0, 2, 0, 53}, target...)
+	case 6:
+		rd = append(append(append([]byte{}, target...), target...), make([]byte, 20)...)
+	default:
+		rd = target
+	}
+	l := len(rd) + []int{1, -1, 2}[r.Intn(3)]
+	b = append(b, 0xC0, 12, 0, typ, 0, 1, 0, 0, 0, 60, byte(l>>8), byte(l))
+	b = append(b, rd...)
+	b = append(b, 0) // room for the record that claims one octet more
+	if r.Intn(4) == 0 {
+		b = b[:len(b)-1-r.Intn(len(rd))]
+	}
+	return b
+}
+
 func genHandleMix(r *rand.Rand, thorough bool, emit func(c, cat string)) {
 	n, per := 2, 4000
 	if thorough {
@@ -100,6 +146,8 @@ func genHandleMix(r *rand.Rand, thorough bool, emit func(c, cat string)) {
 	for i := 0; i < n; i++ {
 		emit(fmt.Sprintf("workers=32 per=%d names=%d notimp=%d seed=%d", per, []int{4000, 300}[i%2], []int{10, 0, 50}[i%3], r.Intn(1<<30)), fmt.Sprintf("names%d", []int{4000, 300}[i%2]))
 	}
+	// the same names in several classes; malformed messages decoded between the queries
+	emit(fmt.Sprintf("workers=32 per=%d names=300 notimp=10 classes=1 malformed=20 seed=%d", per, r.Intn(1<<30)), "classes-malformed")
 }
 
 func init() {
